@@ -100,7 +100,12 @@ def main():
             results.append({"mutant": name, "property": prop, "status": status, "replayed": sum(1 for l in viol if not l.rstrip().endswith("no-failing-input-found"))})
         finally:
             shutil.rmtree(tmp, ignore_errors=True)
-    json.dump(results, open(os.path.join(ROOT, "last_run.json"), "w"), indent=1)
+    lr = os.path.join(ROOT, "last_run.json")
+    if filt and os.path.exists(lr):  # a filtered run updates its entries only
+        old = {r["mutant"]: r for r in json.load(open(lr))}
+        old.update({r["mutant"]: r for r in results})
+        results = [old[k] for k in sorted(old)]
+    json.dump(results, open(lr, "w"), indent=1)
     print("selftest:", "all mutants caught" if ok else "FAILURES")
     return 0 if ok else 1
 
